@@ -76,6 +76,48 @@ pub proof fn lemma_gcd_one(a: nat)
     assert(gcd(1, 0) == 1);
 }
 
+
+pub proof fn lemma_gcd_sym(a: nat, b: nat)
+    ensures gcd(a, b) == gcd(b, a)
+{
+    lemma_gcd_divides(a, b); lemma_gcd_divides(b, a);
+    if a > 0 || b > 0 {
+        let g1 = gcd(a, b) as int; let g2 = gcd(b, a) as int;
+        lemma_gcd_greatest(b, a, g1); lemma_gcd_greatest(a, b, g2);
+        lemma_fundamental_div_mod(g2, g1); lemma_fundamental_div_mod(g1, g2);
+        let u = g2 / g1; let v = g1 / g2;
+        assert(g1 == g2) by (nonlinear_arith) requires g2 == g1 * u, g1 == g2 * v, g1 > 0, g2 > 0;
+    }
+}
+
+/// gcd(c*a, c*b) == c * gcd(a, b)
+pub proof fn lemma_gcd_scale(a: nat, b: nat, c: nat)
+    requires c > 0
+    ensures gcd(c * a, c * b) == c * gcd(a, b)
+    decreases b
+{
+    if b == 0 {
+        assert(c * b == 0) by (nonlinear_arith) requires b == 0;
+    } else {
+        assert(c * b > 0) by (nonlinear_arith) requires b > 0, c > 0;
+        lemma_truncate_middle(a as int, c as int, b as int);
+        assert((c * a) % (c * b) == c * (a % b));
+        lemma_gcd_scale(b, a % b, c);
+    }
+}
+
+/// a positive number bounds its divisors: gcd(a, b) <= a for a > 0
+pub proof fn lemma_gcd_le(a: nat, b: nat)
+    requires a > 0
+    ensures 0 < gcd(a, b) <= a
+{
+    lemma_gcd_divides(a, b);
+    let g = gcd(a, b) as int;
+    lemma_fundamental_div_mod(a as int, g);
+    let q = a as int / g;
+    assert(g <= a) by (nonlinear_arith) requires a as int == g * q, g > 0, a > 0;
+}
+
 /// an inverse exists  ==>  coprime
 pub proof fn lemma_inverse_coprime(a: nat, m: nat, x: int)
     requires m >= 1, x >= 0, (a as int * x) % (m as int) == 1int % (m as int)
@@ -590,6 +632,378 @@ pub const fn inv_mod2k(&self, k: u32) -> (ret__: ConstCtOption<Self>)
 }
 //@@ end
 
+
+
+// ---------------------------------------------------------------- limb-wise AND with the mask 2^k - 1
+/// r = a & m limb-wise with val(m) == 2^k - 1   ==>   val(r) == val(a) mod 2^k
+proof fn lemma_and_mask(a: Seq<Limb>, m: Seq<Limb>, r: Seq<Limb>, n: nat, k: nat)
+    requires k <= 64 * n, val(m, n) == p2(k) - 1,
+        forall|j: int| 0 <= j < n ==> r[j].0 == a[j].0 & m[j].0
+    ensures val(r, n) == val(a, n) % p2(k)
+    decreases n
+{
+    lemma_p2_pos(k);
+    if n == 0 {
+        lemma_p2_succ(0);
+        lemma_small_mod(0, 1);
+    } else {
+        let q = (n - 1) as nat;
+        let at = a[q as int].0; let mt = m[q as int].0; let rt = r[q as int].0;
+        let pq = bp(q);
+        lemma_val_bound(a, q); lemma_val_bound(m, q); lemma_val_bound(r, q); lemma_bp_succ(q);
+        assert(rt == at & mt);
+        if k <= 64 * q {
+            lemma_bp_split(q, k);
+            assert(mt == 0) by (nonlinear_arith)
+                requires val(m, q) + mt as int * pq == p2(k) - 1, p2(k) <= pq, val(m, q) >= 0, mt >= 0;
+            assert(at & mt == 0) by (bit_vector) requires mt == 0;
+            assert(rt as int * pq == 0 && mt as int * pq == 0) by (nonlinear_arith) requires rt == 0, mt == 0;
+            lemma_and_mask(a, m, r, q, k);
+            let c = p2((64 * q - k) as nat);
+            assert(at as int * pq == p2(k) * (at as int * c)) by (nonlinear_arith) requires pq == p2(k) * c;
+            lemma_mod_multiples_vanish(at as int * c, val(a, q), p2(k));
+        } else {
+            let sh = (k - 64 * q) as nat;
+            lemma_bp_pow2(q); lemma_p2_add(sh, 64 * q); lemma_p2_pos(sh);
+            let ps = p2(sh);
+            assert(p2(k) == ps * pq);
+            let dlt = ps - mt as int;
+            assert(dlt * pq == val(m, q) + 1) by (nonlinear_arith)
+                requires val(m, q) + mt as int * pq == ps * pq - 1, dlt == ps - mt as int;
+            assert(dlt == 1) by (nonlinear_arith)
+                requires dlt * pq == val(m, q) + 1, 0 <= val(m, q) < pq, pq > 0;
+            assert(val(m, q) == pq - 1) by (nonlinear_arith) requires dlt * pq == val(m, q) + 1, dlt == 1;
+            // the low limbs of m are all ones
+            let mx = Seq::new(q, |j: int| Limb(u64::MAX));
+            lemma_val_all_max(mx, q);
+            lemma_val_inj(m, mx, q);
+            assert forall|j: int| 0 <= j < q implies r[j].0 == a[j].0 by {
+                let x = a[j].0; let y = m[j].0;
+                assert(y == mx[j].0);
+                assert(x & y == x) by (bit_vector) requires y == 0xffff_ffff_ffff_ffffu64;
+            }
+            lemma_val_eq_iff(r, a, q);
+            // top limb: at & (2^sh - 1) == at mod 2^sh
+            if sh == 64 {
+                lemma_pow2_64();
+                assert(at & mt == at) by (bit_vector) requires mt == 0xffff_ffff_ffff_ffffu64;
+                lemma_small_mod(at as nat, ps as nat);
+            } else {
+                let shu = sh as u64;
+                lemma_one_shl(shu);
+                let one = 1u64 << shu;
+                assert(mt == (one - 1) as u64);
+                assert(at & mt == at % one) by (bit_vector) requires one == 1u64 << shu, shu < 64, mt == sub(one, 1);
+            }
+            assert(rt as int == at as int % ps);
+            let hi = at as int / ps; let lo = at as int % ps;
+            lemma_fundamental_div_mod(at as int, ps); lemma_mod_bound(at as int, ps);
+            assert(val(a, n) == (ps * pq) * hi + (val(a, q) + lo * pq)) by (nonlinear_arith)
+                requires val(a, n) == val(a, q) + at as int * pq, at as int == ps * hi + lo;
+            assert(0 <= val(a, q) + lo * pq < ps * pq) by (nonlinear_arith)
+                requires 0 <= val(a, q) < pq, 0 <= lo <= ps - 1;
+            lemma_fundamental_div_mod_converse(val(a, n), p2(k), hi, val(a, q) + lo * pq);
+        }
+    }
+}
+
+// ---------------------------------------------------------------- CRT recombination (Garner step) for the modulus s * 2^k
+/// s odd and 2^k | s*u   ==>   2^k | u
+proof fn lemma_odd_cancel(s: int, u: int, k: nat)
+    requires s % 2 == 1, (s * u) % p2(k) == 0
+    ensures u % p2(k) == 0
+    decreases k
+{
+    if k == 0 { lemma_p2_succ(0); }
+    else {
+        let k1 = (k - 1) as nat; lemma_p2_succ(k1); lemma_p2_pos(k1);
+        let p = p2(k1);
+        lemma_fundamental_div_mod(s * u, 2 * p);
+        let z = (s * u) / (2 * p);
+        let sh = s / 2;
+        assert(s == 2 * sh + 1);
+        let u2 = p * z - sh * u;
+        assert(u == 2 * u2) by (nonlinear_arith) requires s * u == (2 * p) * z, s == 2 * sh + 1, u2 == p * z - sh * u;
+        assert(s * u2 == p * z + 0) by (nonlinear_arith) requires s * u == (2 * p) * z, u == 2 * u2;
+        lemma_fundamental_div_mod_converse(s * u2, p, z, 0);
+        lemma_odd_cancel(s, u2, k1);
+        lemma_fundamental_div_mod(u2, p);
+        let y = u2 / p;
+        assert(u == (2 * p) * y + 0) by (nonlinear_arith) requires u == 2 * u2, u2 == p * y;
+        lemma_fundamental_div_mod_converse(u, 2 * p, y, 0);
+    }
+}
+
+/// res = av + s*((bv - av)*s^-1 mod 2^k) is the inverse of x modulo m = s*2^k, given the inverses av mod s, bv mod 2^k
+proof fn lemma_garner(x: int, m: int, s: int, k: nat, w: int, av: int, bv: int, sinv: int, tv: int, res: int)
+    requires x >= 0, s >= 1, s % 2 == 1, m == s * p2(k), m < w, w % p2(k) == 0, w > 0,
+        0 <= av <= s, s >= 2 ==> av < s, (x * av) % s == 1int % s,
+        0 <= bv < p2(k), (x * bv) % p2(k) == 1int % p2(k),
+        0 <= sinv < p2(k), (s * sinv) % p2(k) == 1int % p2(k),
+        tv == ((((bv - av) % w) * sinv) % w) % p2(k),
+        res == (av + (s * tv) % w) % w,
+    ensures 0 <= res, m >= 2 ==> res < m, (x * res) % m == 1int % m
+{
+    let pk = p2(k);
+    lemma_p2_pos(k);
+    let d = (bv - av) % w; let q1 = (bv - av) / w;
+    let e = (d * sinv) % w; let q2 = (d * sinv) / w;
+    let q3 = e / pk;
+    lemma_fundamental_div_mod(bv - av, w); lemma_fundamental_div_mod(d * sinv, w); lemma_fundamental_div_mod(e, pk);
+    lemma_mod_bound(e, pk);
+    assert(0 <= tv < pk);
+    // no wrap-around in res
+    assert(0 <= s * tv <= m - s) by (nonlinear_arith) requires 0 <= tv <= pk - 1, s >= 1, m == s * pk;
+    lemma_small_mod((s * tv) as nat, w as nat);
+    lemma_small_mod((av + s * tv) as nat, w as nat);
+    assert(res == av + s * tv);
+    // modulo s
+    assert(x * res == s * (x * tv) + x * av) by (nonlinear_arith) requires res == av + s * tv;
+    lemma_mod_multiples_vanish(x * tv, x * av, s);
+    assert((x * res) % s == 1int % s);
+    // modulo 2^k
+    if k == 0 {
+        lemma_p2_succ(0);
+        assert(pk == 1);
+        assert((x * res) % pk == 1int % pk);
+    } else {
+        lemma_p2_succ((k - 1) as nat); lemma_p2_pos((k - 1) as nat);
+        lemma_small_mod(1, pk as nat);
+        lemma_fundamental_div_mod(w, pk);
+        let c = w / pk;
+        lemma_fundamental_div_mod(s * sinv, pk);
+        let q4 = (s * sinv) / pk;
+        assert(s * sinv == pk * q4 + 1);
+        assert(w * q1 == pk * (c * q1) && w * q2 == pk * (c * q2)) by (nonlinear_arith) requires w == pk * c;
+        assert(d * sinv == (bv - av) * sinv - pk * (c * q1 * sinv)) by (nonlinear_arith)
+            requires bv - av == w * q1 + d, w * q1 == pk * (c * q1);
+        let z1 = c * q1 * sinv + c * q2 + q3;
+        assert(tv == (bv - av) * sinv - pk * z1) by (nonlinear_arith)
+            requires e == pk * q3 + tv, d * sinv == w * q2 + e, w * q2 == pk * (c * q2),
+                d * sinv == (bv - av) * sinv - pk * (c * q1 * sinv), z1 == c * q1 * sinv + c * q2 + q3;
+        assert(s * tv == (bv - av) * (s * sinv) - pk * (s * z1)) by (nonlinear_arith)
+            requires tv == (bv - av) * sinv - pk * z1;
+        assert((bv - av) * (s * sinv) == (bv - av) + pk * ((bv - av) * q4)) by (nonlinear_arith)
+            requires s * sinv == pk * q4 + 1;
+        let zz = (bv - av) * q4 - s * z1;
+        assert(res == bv + pk * zz) by (nonlinear_arith)
+            requires res == av + s * tv, s * tv == (bv - av) * (s * sinv) - pk * (s * z1),
+                (bv - av) * (s * sinv) == (bv - av) + pk * ((bv - av) * q4), zz == (bv - av) * q4 - s * z1;
+        assert(x * res == pk * (x * zz) + x * bv) by (nonlinear_arith) requires res == bv + pk * zz;
+        lemma_mod_multiples_vanish(x * zz, x * bv, pk);
+        assert((x * res) % pk == 1int % pk);
+    }
+    // combine: s | D, 2^k | D, s odd  ==>  s*2^k | D
+    let dd = x * res - 1;
+    lemma_mod_equivalence(x * res, 1, s);
+    lemma_mod_equivalence(x * res, 1, pk);
+    assert(dd % s == 0 && dd % pk == 0);
+    lemma_fundamental_div_mod(dd, s);
+    let u = dd / s;
+    assert(dd == s * u);
+    lemma_odd_cancel(s, u, k);
+    lemma_fundamental_div_mod(u, pk);
+    let y = u / pk;
+    assert(m >= 1) by (nonlinear_arith) requires m == s * pk, s >= 1, pk >= 1;
+    assert(dd == m * y + 0) by (nonlinear_arith) requires dd == s * u, u == pk * y, m == s * pk;
+    lemma_fundamental_div_mod_converse(dd, m, y, 0);
+    lemma_mod_equivalence(x * res, 1, m);
+    // range
+    if m >= 2 {
+        if s == 1 {
+            assert(m == pk) by (nonlinear_arith) requires m == s * pk, s == 1;
+            if res == m {
+                lemma_mod_multiples_basic(x, pk);
+                assert(x * res == x * pk);
+                lemma_small_mod(1, pk as nat);
+                assert(false);
+            }
+        }
+    }
+}
+
+
+/// gcd(x, s*2^k) == 1  ==>  both residue inverses exist: gcd(x, s) == 1 and (k == 0 or x odd)
+proof fn lemma_inv_mod_decide(x: int, m: int, s: int, k: nat)
+    requires x >= 0, s >= 1, m == s * p2(k), gcd(x as nat, m as nat) == 1
+    ensures gcd(x as nat, s as nat) == 1, k == 0 || x % 2 == 1
+{
+    lemma_p2_pos(k);
+    let pk = p2(k);
+    assert(m >= 1) by (nonlinear_arith) requires m == s * pk, s >= 1, pk >= 1;
+    assert(m == s * pk + 0);
+    lemma_fundamental_div_mod_converse(m, s, pk, 0);
+    lemma_coprime_divisor(x as nat, m as nat, s as nat);
+    if k != 0 {
+        lemma_p2_succ((k - 1) as nat);
+        let h = p2((k - 1) as nat);
+        assert(m == 2 * (s * h) + 0) by (nonlinear_arith) requires m == s * pk, pk == 2 * h;
+        lemma_fundamental_div_mod_converse(m, 2, s * h, 0);
+        lemma_coprime_even(x as nat, m as nat);
+    }
+}
+
+/// common power of two: a = 2^k*s1, b = 2^k*s2, both < w   ==>   (gcd(s1, s2) * 2^k) mod w == gcd(a, b), either argument order
+proof fn lemma_gcd_pow2_split(a: int, b: int, k: nat, s1: int, s2: int, w: int)
+    requires a >= 0, b >= 0, a > 0 || b > 0, a < w, b < w, a % p2(k) == 0, b % p2(k) == 0, s1 == a / p2(k), s2 == b / p2(k)
+    ensures s1 >= 0, s2 >= 0,
+        (gcd(s1 as nat, s2 as nat) * p2(k)) % w == gcd(a as nat, b as nat),
+        (gcd(s2 as nat, s1 as nat) * p2(k)) % w == gcd(a as nat, b as nat),
+{
+    let pk = p2(k);
+    lemma_p2_pos(k);
+    lemma_fundamental_div_mod(a, pk); lemma_fundamental_div_mod(b, pk);
+    assert(s1 >= 0) by (nonlinear_arith) requires a == pk * s1, a >= 0, pk >= 1;
+    assert(s2 >= 0) by (nonlinear_arith) requires b == pk * s2, b >= 0, pk >= 1;
+    lemma_gcd_scale(s1 as nat, s2 as nat, pk as nat);
+    lemma_gcd_sym(s1 as nat, s2 as nat);
+    assert((pk as nat) * (s1 as nat) == a as nat && (pk as nat) * (s2 as nat) == b as nat);
+    let g = gcd(a as nat, b as nat) as int;
+    if a > 0 { lemma_gcd_le(a as nat, b as nat); }
+    else { lemma_gcd_sym(a as nat, b as nat); lemma_gcd_le(b as nat, a as nat); }
+    lemma_small_mod(g as nat, w as nat);
+    assert(gcd(s1 as nat, s2 as nat) * pk == g) by (nonlinear_arith)
+        requires g == (pk as nat) * gcd(s1 as nat, s2 as nat), pk >= 1;
+}
+
+/// x divisible by 2^k1 and k <= k1  ==>  x divisible by 2^k
+proof fn lemma_p2_divides_mono(x: int, k: nat, k1: nat)
+    requires k <= k1, x % p2(k1) == 0
+    ensures x % p2(k) == 0
+{
+    lemma_p2_add(k, (k1 - k) as nat); lemma_p2_pos(k); lemma_p2_pos(k1);
+    lemma_fundamental_div_mod(x, p2(k1));
+    let z = x / p2(k1); let c = p2((k1 - k) as nat);
+    assert(x == p2(k) * (c * z) + 0) by (nonlinear_arith) requires x == p2(k1) * z, p2(k1) == p2(k) * c;
+    lemma_fundamental_div_mod_converse(x, p2(k), c * z, 0);
+}
+
+// ---------------------------------------------------------------- safegcd interface (src/modular/safegcd.rs, src/traits.rs)
+// Trait plumbing for the headers `where Odd<Self>: PrecomputeInverter<Inverter = SafeGcdInverter<..>>`.
+// Only the associated types of the two traits of src/traits.rs are declared: their methods return
+// subtle::CtOption and are not called by any function of this unit.
+pub trait Inverter { type Output; }
+pub trait PrecomputeInverter { type Inverter: Inverter<Output = Self::Output> + Sized; type Output; }
+//@@ item src/modular/safegcd.rs | struct UnsatInt
+#[derive(Clone, Copy)]
+pub struct UnsatInt<const LIMBS: usize>(pub [u64; LIMBS]);
+//@@ end
+//@@ item src/modular/safegcd.rs | struct SafeGcdInverter
+#[derive(Clone)]
+pub struct SafeGcdInverter<const SAT_LIMBS: usize, const UNSAT_LIMBS: usize> {
+    pub modulus: UnsatInt<UNSAT_LIMBS>,
+    pub adjuster: UnsatInt<UNSAT_LIMBS>,
+    pub inverse: i64,
+}
+//@@ end
+impl<const SAT_LIMBS: usize, const UNSAT_LIMBS: usize> Inverter for SafeGcdInverter<SAT_LIMBS, UNSAT_LIMBS> { type Output = Uint<SAT_LIMBS>; }
+
+//@@ fn src/uint/inv_mod.rs | impl<const LIMBS: usize, const UNSAT_LIMBS: usize> Uint<LIMBS> where Odd<Self>: PrecomputeInverter<Inverter = SafeGcdInverter<LIMBS, UNSAT_LIMBS>>, | inv_odd_mod | stub | props C10 C11
+impl<const LIMBS: usize, const UNSAT_LIMBS: usize> Uint<LIMBS> where Odd<Self>: PrecomputeInverter<Inverter = SafeGcdInverter<LIMBS, UNSAT_LIMBS>>, {
+#[verifier::external_body]
+pub const fn inv_odd_mod(&self, modulus: &Odd<Self>) -> (ret__: ConstCtOption<Self>)
+//@+
+    // ASSUMED (Bernstein-Yang safegcd, src/modular/safegcd.rs: SafeGcdInverter::new + inv; not verified here).
+    // Total: no precondition on the modulus, because Uint::inv_mod calls it with Odd(0) for a zero modulus.
+    requires 1 <= LIMBS < 0x400_0000
+    ensures ret__.is_some.wf(),
+        // (N)+(C): invertibility is decided exactly for an odd modulus
+        modulus.0.v() % 2 == 1 ==> ret__.is_some.t() == (gcd(self.v() as nat, modulus.0.v() as nat) == 1),
+        // (S): the result is the inverse
+        (modulus.0.v() % 2 == 1 && ret__.is_some.t()) ==> (self.v() * ret__.value.v()) % modulus.0.v() == 1int % modulus.0.v(),
+        (modulus.0.v() % 2 == 1 && modulus.0.v() >= 2 && ret__.is_some.t()) ==> 0 <= ret__.value.v() < modulus.0.v(),
+        // modulus 1: the adjuster 1 is not < modulus, the value is 0 or 1 (observed: both occur)
+        modulus.0.v() == 1 ==> 0 <= ret__.value.v() <= 1
+//@-
+{
+    unimplemented!()
+}
+}
+//@@ end
+//@@ fn src/uint/inv_mod.rs | impl<const LIMBS: usize, const UNSAT_LIMBS: usize> Uint<LIMBS> where Odd<Self>: PrecomputeInverter<Inverter = SafeGcdInverter<LIMBS, UNSAT_LIMBS>>, | inv_mod | body | props C10 C11
+impl<const LIMBS: usize, const UNSAT_LIMBS: usize> Uint<LIMBS> where Odd<Self>: PrecomputeInverter<Inverter = SafeGcdInverter<LIMBS, UNSAT_LIMBS>>, {
+pub const fn inv_mod(&self, modulus: &Self) -> (ret__: ConstCtOption<Self>)
+//@+
+    requires 1 <= LIMBS < 0x400_0000
+    ensures ret__.is_some.wf(),
+        modulus.v() == 0 ==> !ret__.is_some.t(),
+        modulus.v() >= 1 ==> ret__.is_some.t() == (gcd(self.v() as nat, modulus.v() as nat) == 1),
+        (modulus.v() >= 1 && ret__.is_some.t()) ==> (self.v() * ret__.value.v()) % modulus.v() == 1int % modulus.v(),
+        (modulus.v() >= 2 && ret__.is_some.t()) ==> 0 <= ret__.value.v() < modulus.v()
+//@-
+{
+        // Decompose `modulus = s * 2^k` where `s` is odd
+        let k = modulus.trailing_zeros();
+//@+
+    let ghost xv = self.v(); let ghost mv = modulus.v(); let ghost w = bp(LIMBS as nat); let ghost pk = p2(k as nat);
+    proof { lemma_val_bound(self.limbs@, LIMBS as nat); lemma_val_bound(modulus.limbs@, LIMBS as nat); lemma_p2_pos(k as nat); }
+//@-
+        let s = modulus.overflowing_shr(k).unwrap_or(Self::ZERO());
+//@+
+    let ghost sv = s.v();
+    proof {
+        if mv >= 1 {
+            lemma_fundamental_div_mod(mv, pk);
+            assert(mv == sv * pk) by (nonlinear_arith) requires mv == pk * (mv / pk) + 0, sv == mv / pk;
+            lemma_bp_split(LIMBS as nat, k as nat);
+            lemma_p2_mono((k + 1) as nat, (64 * LIMBS) as nat); lemma_p2_succ(k as nat); lemma_bp_pow2(LIMBS as nat);
+            lemma_small_mod(pk as nat, w as nat); lemma_small_mod((pk - 1) as nat, w as nat);
+            assert(1 * pk == pk);
+        }
+    }
+//@-
+        // Decompose `self` into RNS with moduli `2^k` and `s` and calculate the inverses.
+        // Using the fact that `(z^{-1} mod (m1 * m2)) mod m1 == z^{-1} mod m1`
+        let s_is_odd = s.is_odd();
+        let maybe_a = self.inv_odd_mod(&Odd(s)).and_choice(s_is_odd);
+        let maybe_b = self.inv_mod2k(k);
+        let is_some = maybe_a.is_some().and(maybe_b.is_some());
+        // Unwrap to avoid mapping through ConstCtOptions.
+        // if `a` or `b` don't exist, the returned ConstCtOption will be None anyway.
+        let a = maybe_a.unwrap_or(Uint::ZERO());
+        let b = maybe_b.unwrap_or(Uint::ZERO());
+        // Restore from RNS:
+        // self^{-1} = a mod s = b mod 2^k
+        // => self^{-1} = a + s * ((b - a) * s^(-1) mod 2^k)
+        // (essentially one step of the Garner's algorithm for recovery from RNS).
+        // `s` is odd, so this always exists (except for a zero modulus, where the result is none anyway)
+        let m_odd_inv = s.inv_mod2k(k).unwrap_or(Self::ZERO());
+        // This part is mod 2^k
+        let shifted = Uint::ONE().overflowing_shl(k).unwrap_or(Self::ZERO());
+        let mask = shifted.wrapping_sub(&Uint::ONE());
+//@+
+    proof {
+        if mv >= 1 {
+            assert(mask.v() == pk - 1);
+            assert forall|ys: Seq<Limb>, ts: Seq<Limb>| (forall|j: int| 0 <= j < LIMBS ==> ts[j].0 == ys[j].0 & mask.limbs@[j].0)
+                implies #[trigger] val(ts, LIMBS as nat) == #[trigger] val(ys, LIMBS as nat) % pk by {
+                lemma_and_mask(ys, mask.limbs@, ts, LIMBS as nat, k as nat);
+            }
+        }
+    }
+//@-
+        let t = (b.wrapping_sub(&a).wrapping_mul(&m_odd_inv)).bitand(&mask);
+        // Will not overflow since `a <= s - 1`, `t <= 2^k - 1`,
+        // so `a + s * t <= s * 2^k - 1 == modulus - 1`.
+        let result = a.wrapping_add(&s.wrapping_mul(&t));
+//@+
+    proof {
+        if mv >= 1 {
+            lemma_val_bound(result.limbs@, LIMBS as nat);
+            if is_some.t() {
+                assert(t.v() == ((((b.v() - a.v()) % w) * m_odd_inv.v()) % w) % pk);
+                lemma_garner(xv, mv, sv, k as nat, w, a.v(), b.v(), m_odd_inv.v(), t.v(), result.v());
+                lemma_inverse_coprime(xv as nat, mv as nat, result.v());
+            } else if gcd(xv as nat, mv as nat) == 1 {
+                lemma_inv_mod_decide(xv, mv, sv, k as nat);
+            }
+        }
+    }
+//@-
+        ConstCtOption::new(result, is_some)
+    }
+}
+//@@ end
 //@@ fn src/odd.rs | impl<T> Odd<T> | as_ref | body | props C08 C10 C11
 impl<T> Odd<T> {
 pub const fn as_ref(&self) -> (ret__: &T)
@@ -598,6 +1012,83 @@ pub const fn as_ref(&self) -> (ret__: &T)
 //@-
 {
         &self.0
+    }
+}
+//@@ end
+//@@ fn src/modular/safegcd.rs | impl<const SAT_LIMBS: usize, const UNSAT_LIMBS: usize> SafeGcdInverter<SAT_LIMBS, UNSAT_LIMBS> | gcd | stub | props C10 C11
+impl<const SAT_LIMBS: usize, const UNSAT_LIMBS: usize> SafeGcdInverter<SAT_LIMBS, UNSAT_LIMBS> {
+#[verifier::external_body]
+pub const fn gcd(f: &Uint<SAT_LIMBS>, g: &Uint<SAT_LIMBS>) -> (ret__: Uint<SAT_LIMBS>)
+//@+
+    // ASSUMED (Bernstein-Yang safegcd core, not verified here). Domain: as used by the callers --
+    // Uint::gcd passes an odd `g` (and a possibly even `f`), Odd::gcd_vartime an odd `f`; both zero for gcd(0, 0).
+    requires 1 <= SAT_LIMBS < 0x400_0000, f.v() % 2 == 1 || g.v() % 2 == 1 || (f.v() == 0 && g.v() == 0)
+    ensures ret__.v() == gcd(f.v() as nat, g.v() as nat)
+//@-
+{
+    unimplemented!()
+}
+}
+//@@ end
+//@@ fn src/modular/safegcd.rs | impl<const SAT_LIMBS: usize, const UNSAT_LIMBS: usize> SafeGcdInverter<SAT_LIMBS, UNSAT_LIMBS> | gcd_vartime | stub | props C10 C11 C15
+impl<const SAT_LIMBS: usize, const UNSAT_LIMBS: usize> SafeGcdInverter<SAT_LIMBS, UNSAT_LIMBS> {
+#[verifier::external_body]
+pub const fn gcd_vartime(f: &Uint<SAT_LIMBS>, g: &Uint<SAT_LIMBS>) -> (ret__: Uint<SAT_LIMBS>)
+//@+
+    // ASSUMED (Bernstein-Yang safegcd core, variable-time variant; not verified here)
+    requires 1 <= SAT_LIMBS < 0x400_0000, f.v() % 2 == 1 || g.v() % 2 == 1 || (f.v() == 0 && g.v() == 0)
+    ensures ret__.v() == gcd(f.v() as nat, g.v() as nat)
+//@-
+{
+    unimplemented!()
+}
+}
+//@@ end
+//@@ fn src/uint/gcd.rs | impl<const SAT_LIMBS: usize, const UNSAT_LIMBS: usize> Uint<SAT_LIMBS> where Odd<Self>: PrecomputeInverter<Inverter = SafeGcdInverter<SAT_LIMBS, UNSAT_LIMBS>>, | gcd | body | props C10 C11
+impl<const SAT_LIMBS: usize, const UNSAT_LIMBS: usize> Uint<SAT_LIMBS> where Odd<Self>: PrecomputeInverter<Inverter = SafeGcdInverter<SAT_LIMBS, UNSAT_LIMBS>>, {
+pub const fn gcd(&self, rhs: &Self) -> (ret__: Self)
+//@+
+    requires 1 <= SAT_LIMBS < 0x400_0000
+    ensures ret__.v() == gcd(self.v() as nat, rhs.v() as nat)
+//@-
+{
+        let k1 = self.trailing_zeros();
+        let k2 = rhs.trailing_zeros();
+        // Select the smaller of the two `k` values, making 2^k the common even divisor
+        let k = ConstChoice::from_u32_lt(k2, k1).select_u32(k1, k2);
+        // Decompose `self` and `rhs` into `s{1, 2} * 2^k` where either `s1` or `s2` is odd
+        let s1 = self.overflowing_shr(k).unwrap_or(Self::ZERO());
+        let s2 = rhs.overflowing_shr(k).unwrap_or(Self::ZERO());
+        let f = Self::select(&s1, &s2, s2.is_odd().not());
+        let g = Self::select(&s1, &s2, s2.is_odd());
+//@+
+    let ghost av = self.v(); let ghost bv = rhs.v(); let ghost w = bp(SAT_LIMBS as nat);
+    proof {
+        lemma_val_bound(self.limbs@, SAT_LIMBS as nat); lemma_val_bound(rhs.limbs@, SAT_LIMBS as nat);
+        if av == 0 && bv == 0 {
+            lemma_gcd_divides(0, 0);
+        } else {
+            lemma_p2_divides_mono(av, k as nat, k1 as nat); lemma_p2_divides_mono(bv, k as nat, k2 as nat);
+            lemma_gcd_pow2_split(av, bv, k as nat, s1.v(), s2.v(), w);
+            assert(g.v() % 2 == 1);
+        }
+    }
+//@-
+        <Odd<Self> as PrecomputeInverter>::Inverter::gcd(&f, &g)
+            .overflowing_shl(k)
+            .unwrap_or(Self::ZERO())
+    }
+}
+//@@ end
+//@@ fn src/uint/gcd.rs | impl<const SAT_LIMBS: usize, const UNSAT_LIMBS: usize> Odd<Uint<SAT_LIMBS>> where Self: PrecomputeInverter<Inverter = SafeGcdInverter<SAT_LIMBS, UNSAT_LIMBS>>, | gcd_vartime | body | props C10 C11 C15
+impl<const SAT_LIMBS: usize, const UNSAT_LIMBS: usize> Odd<Uint<SAT_LIMBS>> where Self: PrecomputeInverter<Inverter = SafeGcdInverter<SAT_LIMBS, UNSAT_LIMBS>>, {
+pub const fn gcd_vartime(&self, rhs: &Uint<SAT_LIMBS>) -> (ret__: Uint<SAT_LIMBS>)
+//@+
+    requires 1 <= SAT_LIMBS < 0x400_0000, self.0.v() % 2 == 1
+    ensures ret__.v() == gcd(self.0.v() as nat, rhs.v() as nat)
+//@-
+{
+        <Self as PrecomputeInverter>::Inverter::gcd_vartime(self.as_ref(), rhs)
     }
 }
 //@@ end
